@@ -80,7 +80,6 @@ package model
 //      [./|/].datamon, .conflicts, .checkpoints and everything below them ------------------------
 //@ regex genFileRe covers [reserved-recognised] "^(\./|/)?\.(datamon|conflicts|checkpoints)(/.*)?$"
 //@ regex genFileRe within [only-reserved] "^(\./|/)?\.(datamon|conflicts|checkpoints)(/.*)?$"
-//@ regex genFileRe within [only-reserved-or-known] "^(\./|/)?\.(datamon|conflicts|checkpoints)(/.*)?$" except "^\.\.(conflicts|checkpoints)(/.*)?$"
 //@ regex isBundleFileIndexRe equals [file-list-name] "^bundle-files-[0-9]+\.yaml$"
 //@ regex metaRe equals [descriptor-name] "^\.datamon/.*\.yaml$"
 
